@@ -81,6 +81,7 @@ var c14Fails = []c14Fail{
 	{"delete-nonmap", func(a string) string { return "delete([" + a + "], \"k\")" }, "invalid type for argument 'first' in call to 'builtin-function:delete'"},
 	{"userfn-error", func(a string) string { return "t := hostfail(" + a + ")" }, "host failure"},
 	{"userfn-argtype", func(a string) string { return "t := hostfail(\"s\")" }, "invalid type for argument 'first' in call to 'user-function:hostfail'"},
+	{"userfn-wrongargs", func(a string) string { return "t := hostfail(" + a + ", 2)" }, "wrong number of arguments in call to 'user-function:hostfail'"},
 }
 
 type c14HostErr struct{ Code int }
@@ -277,6 +278,22 @@ func (c *c14) RunCase(r *fw.Rec, cs fw.Case) {
 			return
 		}
 		r.Inc("unwrap-checked:host")
+	}
+	// the two argument errors a host function may return are reworded by the VM but must stay reachable
+	if strings.Contains(kind, "userfn-argtype") && strings.Contains(eng.Err, "invalid type for argument") {
+		var at tengo.ErrInvalidArgumentType
+		if !errors.As(eng.ErrVal, &at) || at.Name != "first" {
+			r.Violate("unwrap:host-ErrInvalidArgumentType", "the ErrInvalidArgumentType a host function returned is not recognisable through errors.As", detail)
+			return
+		}
+		r.Inc("unwrap-checked:host-argtype")
+	}
+	if strings.Contains(kind, "userfn-wrongargs") && strings.Contains(eng.Err, "wrong number of arguments") {
+		if !errors.Is(eng.ErrVal, tengo.ErrWrongNumArguments) {
+			r.Violate("unwrap:host-ErrWrongNumArguments", "the ErrWrongNumArguments a host function returned is not recognisable through errors.Is", detail)
+			return
+		}
+		r.Inc("unwrap-checked:host-wrongargs")
 	}
 	if strings.Contains(eng.Err, "index out of bounds") {
 		if !errors.Is(eng.ErrVal, tengo.ErrIndexOutOfBounds) {
